@@ -172,8 +172,9 @@ for fn, src in (('is_822_local', 'src/is_822_local.c'), ('is_5321_local', 'src/i
 add(Job('is_6531_local+rfc20', 'harness/is_6531_local.c', enforce='is_6531_local', loops=True, timeout=2400, reach=3, defines=['-DRFC6531_FOLLOW_RFC20'],
         extra_sources=['src/utf8_decode.c'], expect=['postcondition', 'loop_invariant_base', 'loop_invariant_step', 'loop_decreases', 'assigns'],
         functions=['is_6531_local (RFC6531_FOLLOW_RFC20 build)'], files=['src/is_6531_local.c', 'src/utf8_decode.c'], assumptions=[A1, A9]))
-add(Job('is_6531_local+rfc5322', 'harness/is_6531_local_rfc5322.c', enforce='is_6531_local', loops=True, timeout=3000, reach=4, defines=['-DRFC6531_FOLLOW_RFC5322'],
-        extra_sources=['src/utf8_decode.c'], expect=['postcondition', 'loop_invariant_base', 'loop_invariant_step', 'loop_decreases', 'assigns'], mem_est=16,
+add(Job('is_6531_local+rfc5322', 'harness/is_6531_local_rfc5322.c', enforce='is_6531_local', loops=True, timeout=2400, reach=4, defines=['-DRFC6531_FOLLOW_RFC5322'],
+        extra_sources=['src/utf8_decode.c'], expect=['postcondition', 'loop_invariant_base', 'loop_invariant_step', 'loop_decreases', 'assigns'], mem_est=3,
+        solvers=('minisat2',), extra_cbmc=['--refine-arrays'],
         functions=['is_6531_local (RFC6531_FOLLOW_RFC5322 build)', 'utf8_decode_init/next/at_byte (inlined)'], files=['src/is_6531_local.c', 'src/utf8_decode.c'], assumptions=[A1, A9],
         note='option build: while only ASCII characters have been read the scanner follows the RFC 5322 specification automaton (the one job is_5322_local is proved against), both directions; accept => the whole input is well-formed UTF-8'))
 add(Job('is_ascii_domain+underscore', 'harness/is_ascii_domain.c', enforce='is_ascii_domain', loops=True, timeout=900, reach=3, defines=['-DLABELS_ALLOW_UNDERSCORE'],
